@@ -4748,6 +4748,16 @@ func c07WaitersWokenOnlyOnTheirCondition(w *World, r *Report) {
 					}
 				}
 			}
+			// a result spilled into a local because the function defers (`*t0 = x; rundefers; return *t0`)
+			if u, ok := v.(*ssa.UnOp); ok && u.Op == token.MUL {
+				if al, ok := u.X.(*ssa.Alloc); ok && al.Referrers() != nil {
+					for _, ref := range *al.Referrers() {
+						if st, ok := ref.(*ssa.Store); ok && st.Addr == ssa.Value(al) {
+							walk(st.Val, d+1)
+						}
+					}
+				}
+			}
 			// a flag kept in the queue (`queueHasData`): what is stored into it
 			if u, ok := v.(*ssa.UnOp); ok && u.Op == token.MUL {
 				if fa, ok := u.X.(*ssa.FieldAddr); ok {
@@ -4817,13 +4827,16 @@ func c07WaitersWokenOnlyOnTheirCondition(w *World, r *Report) {
 					for _, c2 := range callsIn(g) {
 						if obj != nil && sCallee(c2) == obj {
 							ncall++
-							if !underLenTest(g, c2.(ssa.Instruction), not) {
+							if !underLenTest(g, c2.(ssa.Instruction), not) && !wakesAsClosed(fns, g, c2.(ssa.Instruction), lists) {
 								all = false
 							}
 						}
 					}
 				}
 				ok = ncall > 0 && all
+			}
+			if !ok && wakesAsClosed(fns, fn, ci, lists) {
+				ok = true // "the queue is closed": the waiters look at that flag when they wake up
 			}
 			if !ok {
 				bad = append(bad, fmt.Sprintf("%s: %s calls the queue's waiter callbacks without having tested the queue's buffer: a waiter takes any wake-up for 'my condition holds' — a Write blocked on unacknowledged chunks returns (len, nil) and the caller's write-then-close drops them", w.Pos(c.Pos()), ssaFuncKey(fn)))
@@ -5156,13 +5169,19 @@ func c10DotRemovalIsByContent(w *World, r *Report) {
 		n++
 	}
 	seen := map[*ssa.Function]bool{}
-	for _, c := range callsIn(un) {
-		g := c.Common().StaticCallee()
-		if g == nil || seen[g] || g.Pkg == nil || !strings.HasPrefix(g.Pkg.Pkg.Path(), modPath) || len(g.Blocks) == 0 {
+	// the unwrapper and the helpers it is split into (the record switch and the host-name handling may each live
+	// in a function of their own)
+	for _, g := range staticCone(un, 3) {
+		if g == un || seen[g] || g.Pkg == nil || !strings.HasPrefix(g.Pkg.Pkg.Path(), modPath) || len(g.Blocks) == 0 {
 			continue
 		}
 		sig := g.Signature
 		if sig.Params().Len() != 1 || sig.Results().Len() != 1 || !types.Identical(sig.Params().At(0).Type(), sig.Results().At(0).Type()) {
+			// not a text-to-text helper: it may remove the dots inline
+			if k, _ := classify(g); k == "content" && sig.Recv() == nil {
+				seen[g] = true
+				n++
+			}
 			continue
 		}
 		seen[g] = true
@@ -5361,4 +5380,421 @@ func c14CloseReleasesCarrierOnEveryPath(w *World, r *Report) {
 	if n == 0 {
 		r.Undecided(rule, "close:none", "-", "no Close method that closes a carrier field found under internal/streams")
 	}
+}
+
+// wakesAsClosed: the wake-up at `at` is the queue's "closed" signal — a constant true is stored into a boolean
+// field F of the receiver in a block that dominates the wake-up, and every function that registers a waiter on the
+// same list reads F (itself or in a helper it calls) — so a woken waiter can tell "closed" from "my condition
+// holds".
+func wakesAsClosed(fns []*ssa.Function, fn *ssa.Function, at ssa.Instruction, lists []calledList) bool {
+	if len(fn.Params) == 0 {
+		return false
+	}
+	recv := ssa.Value(fn.Params[0])
+	var flag *types.Var
+	allInstrs(fn, func(in ssa.Instruction) {
+		st, ok := in.(*ssa.Store)
+		if !ok || !st.Block().Dominates(at.Block()) {
+			return
+		}
+		fa, ok := st.Addr.(*ssa.FieldAddr)
+		if !ok || fa.X != recv {
+			return
+		}
+		if b, isB := constBool(st.Val); !isB || !b {
+			return
+		}
+		flag = fieldVarOf(fa)
+	})
+	if flag == nil {
+		return false
+	}
+	listed := map[*types.Var]bool{}
+	for _, l := range lists {
+		listed[l.f] = true
+	}
+	readsFlag := func(g *ssa.Function) bool {
+		found := false
+		for _, h := range staticCone(g, 1) {
+			allInstrs(h, func(in ssa.Instruction) {
+				if fa, ok := in.(*ssa.FieldAddr); ok && fieldVarOf(fa) == flag {
+					if fa.Referrers() != nil {
+						for _, ref := range *fa.Referrers() {
+							if u, ok := ref.(*ssa.UnOp); ok && u.Op == token.MUL {
+								found = true
+							}
+						}
+					}
+				}
+			})
+		}
+		return found
+	}
+	nreg := 0
+	for _, g := range fns {
+		// the waiters of THIS queue type (two queue types may keep their lists in one shared state struct)
+		if on := ownerNamed(fn); on != nil && ownerNamed(g) != on {
+			continue
+		}
+		registers := false
+		allInstrs(g, func(in ssa.Instruction) {
+			st, ok := in.(*ssa.Store)
+			if !ok {
+				return
+			}
+			fa, ok := st.Addr.(*ssa.FieldAddr)
+			if !ok || !listed[fieldVarOf(fa)] {
+				return
+			}
+			if c, ok := st.Val.(*ssa.Call); ok {
+				if b, ok := c.Call.Value.(*ssa.Builtin); ok && b.Name() == "append" {
+					registers = true
+				}
+			}
+		})
+		if registers {
+			nreg++
+			if readsFlag(g) {
+				continue
+			}
+			// the registration in a helper (`wait := q.addWaiter()`): every caller looks at the flag
+			ncall, all := 0, true
+			gobj := fnObj(g)
+			for _, h := range fns {
+				for _, c := range callsIn(h) {
+					if gobj != nil && sCallee(c) == gobj {
+						ncall++
+						if !readsFlag(h) {
+							all = false
+						}
+					}
+				}
+			}
+			if ncall == 0 || !all {
+				return false
+			}
+		}
+	}
+	return nreg > 0
+}
+
+// c14CloseWakesBlockedReaders: R14.11 — the multiplexer's receive loop sits in Read of the DNS connection for the
+// whole life of a session, and that Read waits on the connection's in-queue. When the connection is closed nothing
+// will ever be appended again: unless the closing path also closes the queue (sets its closed flag and wakes the
+// waiters), that goroutine — with the session and its buffers — stays behind for every DNS session that has ended.
+// Decided: (a) the queue type has a closing method (stores true into a boolean field of the queue and calls the
+// waiter callbacks); (b) every function that marks an owner of such a queue closed — stores true into the boolean
+// flag the owner's Read consults, or is the owner's Close and closes its carrier — calls that method on the
+// owner's queue on every returning path that does the marking.
+func c14CloseWakesBlockedReaders(w *World, r *Report) {
+	ruleCloseWakesBlockedReaders(w, r, "R14.11")
+}
+
+func ruleCloseWakesBlockedReaders(w *World, r *Report, rule string) {
+	utilFns := pkgFuncs(w, "/internal/streams/dns/util")
+	// queue types with blocking readers: named types of dns/util with a Read([]byte) method and a waiter list
+	type queueInfo struct {
+		n       *types.Named
+		closers map[*types.Func]bool
+	}
+	var queues []*queueInfo
+	up := w.Pkg("internal/streams/dns/util")
+	if up == nil {
+		r.Undecided(rule, "anchor", "-", "anchor unresolved: package dns/util")
+		return
+	}
+	for _, nm := range up.Types.Scope().Names() {
+		tn, ok := up.Types.Scope().Lookup(nm).(*types.TypeName)
+		if !ok {
+			continue
+		}
+		n, ok := tn.Type().(*types.Named)
+		if !ok {
+			continue
+		}
+		st, ok := n.Underlying().(*types.Struct)
+		if !ok || declaredMethod(n, "Read") == nil {
+			continue
+		}
+		hasList := false
+		var scan func(st *types.Struct, d int)
+		scan = func(st *types.Struct, d int) {
+			for i := 0; i < st.NumFields(); i++ {
+				if sl, ok := st.Field(i).Type().Underlying().(*types.Slice); ok {
+					if sig, ok := sl.Elem().Underlying().(*types.Signature); ok && sig.Params().Len() == 0 {
+						hasList = true
+					}
+				}
+				// the waiters may be kept in a small state struct of their own
+				if inner, ok := st.Field(i).Type().Underlying().(*types.Struct); ok && d < 1 {
+					if fn, isNamed := st.Field(i).Type().(*types.Named); isNamed && fn.Obj().Pkg() == up.Types {
+						scan(inner, d+1)
+					}
+				}
+			}
+		}
+		scan(st, 0)
+		if !hasList {
+			continue
+		}
+		qi := &queueInfo{n: n, closers: map[*types.Func]bool{}}
+		for i := 0; i < n.NumMethods(); i++ {
+			m := n.Method(i)
+			fn := w.SSAFunc(m)
+			if fn == nil || len(fn.Params) == 0 {
+				continue
+			}
+			setsFlag, fires := false, false
+			allInstrs(fn, func(in ssa.Instruction) {
+				if stI, ok := in.(*ssa.Store); ok {
+					if fa, ok := stI.Addr.(*ssa.FieldAddr); ok && fa.X == ssa.Value(fn.Params[0]) {
+						if b, isB := constBool(stI.Val); isB && b {
+							setsFlag = true
+						}
+					}
+				}
+				if c, ok := in.(ssa.CallInstruction); ok && !c.Common().IsInvoke() && c.Common().StaticCallee() == nil {
+					if len(calledListFields(w, utilFns, fn, c)) > 0 {
+						fires = true
+					}
+				}
+				// ... or through a helper of the package that fires a waiter list (`q.state.release()`)
+				if c, ok := in.(ssa.CallInstruction); ok {
+					if h := c.Common().StaticCallee(); h != nil && h != fn && h.Pkg == fn.Pkg {
+						for _, c2 := range callsIn(h) {
+							if !c2.Common().IsInvoke() && c2.Common().StaticCallee() == nil && len(calledListFields(w, utilFns, h, c2)) > 0 {
+								fires = true
+							}
+						}
+					}
+				}
+			})
+			if setsFlag && fires {
+				qi.closers[m] = true
+			}
+		}
+		queues = append(queues, qi)
+	}
+	if len(queues) == 0 {
+		r.Undecided(rule, "anchor", "-", "no queue type with a blocking Read found in dns/util")
+		return
+	}
+	isQueueType := func(t types.Type) *queueInfo {
+		if p, ok := t.(*types.Pointer); ok {
+			t = p.Elem()
+		}
+		for _, qi := range queues {
+			if t == types.Type(qi.n) {
+				return qi
+			}
+		}
+		return nil
+	}
+	// owners: struct types of the DNS packages with a field of a queue type and a Read method
+	dnsFns := pkgFuncs(w, "/internal/streams/dns")
+	nown := 0
+	dp := w.Pkg("internal/streams/dns")
+	if dp == nil {
+		r.Undecided(rule, "anchor", "-", "anchor unresolved: package streams/dns")
+		return
+	}
+	for _, nm := range dp.Types.Scope().Names() {
+		tn, ok := dp.Types.Scope().Lookup(nm).(*types.TypeName)
+		if !ok {
+			continue
+		}
+		o, ok := tn.Type().(*types.Named)
+		if !ok {
+			continue
+		}
+		st, ok := o.Underlying().(*types.Struct)
+		if !ok || declaredMethod(o, "Read") == nil {
+			continue
+		}
+		for i := 0; i < st.NumFields(); i++ {
+			qf := st.Field(i)
+			qi := isQueueType(qf.Type())
+			if qi == nil {
+				continue
+			}
+			nown++
+			key := "field:" + qualName(o) + "." + qf.Name() + "|closed-with-its-connection"
+			if len(qi.closers) == 0 {
+				r.Check(false, rule, key, w.Pos(qf.Pos()), "", fmt.Sprintf("%s has no method that marks the queue closed and wakes its waiters: a Read blocked on it when the connection is closed (the multiplexer's receive loop) is never released — one goroutine and one session stay behind per ended DNS session", qualName(qi.n)))
+				continue
+			}
+			isQueueClose := func(in ssa.Instruction) bool {
+				c, ok := in.(ssa.CallInstruction)
+				if !ok {
+					return false
+				}
+				f := sCallee(c)
+				if f == nil || !qi.closers[f] || len(c.Common().Args) == 0 {
+					return false
+				}
+				for _, root := range provenance(c.Common().Args[0], provOpts{}) {
+					if fa := asFieldAddr(root); fa != nil && fieldVarOf(fa) == qf {
+						return true
+					}
+					if u, ok := root.(*ssa.UnOp); ok {
+						if fa, ok := u.X.(*ssa.FieldAddr); ok && fieldVarOf(fa) == qf {
+							return true
+						}
+					}
+				}
+				if fa, ok := c.Common().Args[0].(*ssa.FieldAddr); ok && fieldVarOf(fa) == qf {
+					return true
+				}
+				return false
+			}
+			// the flag(s) the owner's Read consults to report end-of-stream
+			readFlags := map[*types.Var]bool{}
+			if rd := w.SSAFunc(declaredMethod(o, "Read")); rd != nil {
+				for _, h := range staticCone(rd, 1) {
+					allInstrs(h, func(in ssa.Instruction) {
+						if fa, ok := in.(*ssa.FieldAddr); ok && structNamedOf(fa.X.Type()) == o {
+							if bt, ok := fieldVarOf(fa).Type().Underlying().(*types.Basic); ok && bt.Kind() == types.Bool {
+								readFlags[fieldVarOf(fa)] = true
+							}
+						}
+					})
+				}
+			}
+			// the markings: stores of true into such a flag, and the owner's Close if it closes a carrier
+			isMark := func(in ssa.Instruction) bool {
+				if stI, ok := in.(*ssa.Store); ok {
+					if fa, ok := stI.Addr.(*ssa.FieldAddr); ok {
+						if sn := structNamedOf(fa.X.Type()); sn == o {
+							if b, isB := constBool(stI.Val); isB && b {
+								if readFlags[fieldVarOf(fa)] {
+									return true
+								}
+							}
+						}
+					}
+				}
+				return false
+			}
+			isCarrierClose := func(g *ssa.Function) func(in ssa.Instruction) bool {
+				return func(in ssa.Instruction) bool {
+					c, ok := in.(ssa.CallInstruction)
+					if !ok || len(g.Params) == 0 {
+						return false
+					}
+					cc := c.Common()
+					if !cc.IsInvoke() || cc.Method.Name() != "Close" {
+						return false
+					}
+					for _, root := range provenance(cc.Value, provOpts{}) {
+						if u, ok := root.(*ssa.UnOp); ok {
+							if fa, ok := u.X.(*ssa.FieldAddr); ok && fa.X == ssa.Value(g.Params[0]) {
+								return true
+							}
+						}
+					}
+					return false
+				}
+			}
+			nmark := 0
+			var bad []string
+			// a helper method of the same object, called on the same receiver: does it mark (close the carrier) /
+			// close the queue on every returning path?
+			helperDoes := func(g *ssa.Function, in ssa.Instruction, what func(h *ssa.Function) func(ssa.Instruction) bool) bool {
+				c, ok := in.(ssa.CallInstruction)
+				if !ok || len(g.Params) == 0 {
+					return false
+				}
+				h := c.Common().StaticCallee()
+				if h == nil || h == g || ownerNamed(h) != o || len(h.Params) == 0 || len(h.Blocks) == 0 || len(c.Common().Args) == 0 || c.Common().Args[0] != ssa.Value(g.Params[0]) {
+					return false
+				}
+				isEv := what(h)
+				all, any := true, false
+				okp := enumPaths(h, nil, isEv, nil, func(e pathExit) {
+					if _, isRet := e.Last.(*ssa.Return); !isRet {
+						return
+					}
+					any = true
+					if len(e.State.Events) == 0 {
+						all = false
+					}
+				})
+				return okp && all && any
+			}
+			for _, g := range dnsFns {
+				var markEv func(in ssa.Instruction) bool
+				qEv := func(in ssa.Instruction) bool {
+					return isQueueClose(in) || helperDoes(g, in, func(h *ssa.Function) func(ssa.Instruction) bool { return isQueueClose })
+				}
+				if ownerNamed(g) == o && g.Name() == "Close" && g.Parent() == nil {
+					cc := isCarrierClose(g)
+					markEv = func(in ssa.Instruction) bool {
+						return cc(in) || isMark(in) || helperDoes(g, in, func(h *ssa.Function) func(ssa.Instruction) bool { return isCarrierClose(h) })
+					}
+				} else {
+					markEv = isMark
+				}
+				has := false
+				allInstrs(g, func(in ssa.Instruction) {
+					if markEv(in) {
+						has = true
+					}
+				})
+				if !has {
+					continue
+				}
+				// a helper that is itself judged as part of the owner's Close is not a marking function of its own
+				if g.Name() != "Close" && ownerNamed(g) == o {
+					onlyCarrier := true
+					allInstrs(g, func(in ssa.Instruction) {
+						if isMark(in) {
+							onlyCarrier = false
+						}
+					})
+					if onlyCarrier {
+						continue
+					}
+				}
+				nmark++
+				okp := enumPaths(g, nil, func(in ssa.Instruction) bool { return markEv(in) || qEv(in) }, nil, func(e pathExit) {
+					if _, isRet := e.Last.(*ssa.Return); !isRet {
+						return
+					}
+					marked, closedQ := false, false
+					for _, ev := range e.State.Events {
+						if qEv(ev) {
+							closedQ = true
+						}
+						if markEv(ev) {
+							marked = true
+						}
+					}
+					if marked && !closedQ {
+						bad = append(bad, fmt.Sprintf("%s: a path through %s closes the connection without closing its in-queue (%s): a Read blocked on the queue — the multiplexer's receive loop — is never released, one goroutine and one session stay behind per ended DNS session", w.Pos(e.Last.Pos()), ssaFuncKey(g), qf.Name()))
+					}
+				})
+				if !okp {
+					bad = append(bad, fmt.Sprintf("%s: path budget exceeded", ssaFuncKey(g)))
+				}
+			}
+			bad = uniqStrings(bad)
+			sort.Strings(bad)
+			if len(bad) > 3 {
+				bad = bad[:3]
+			}
+			r.Check(len(bad) == 0 && nmark > 0, rule, key, w.Pos(qf.Pos()), fmt.Sprintf("%d function(s) mark a %s closed; each closes the in-queue on the same path", nmark, o.Obj().Name()), strings.Join(bad, "; ")+mapStr(nmark == 0, "no function that marks the connection closed was found"))
+		}
+	}
+	if nown == 0 {
+		r.Undecided(rule, "anchor", "-", "no connection type that owns a blocking in-queue found in streams/dns")
+	}
+}
+
+// structNamedOf: the named struct type behind a (pointer to a) value.
+func structNamedOf(t types.Type) *types.Named {
+	if p, ok := t.Underlying().(*types.Pointer); ok {
+		t = p.Elem()
+	}
+	n, _ := t.(*types.Named)
+	return n
 }
